@@ -1480,6 +1480,16 @@ class MutInventory:
                                     self.shared_attrs[t.attr] = f'{f.qual}: {f.mod.text(n, 40)}'
                                     changed = True
 
+    def shared_reads(self):
+        """(attribute, function, path class) for every attribute read on an object of main / check_all (the options namespace and what hangs
+        off it): which options the per-file path can depend on"""
+        res = set()
+        for f in self.sc.fns:
+            for n in f.nodes:
+                if isinstance(n, ast.Attribute) and isinstance(n.ctx, ast.Load) and self._label(f, n.value) == 'shared':
+                    res.add((n.attr, f.key, f.path))
+        return sorted(res)
+
     def _label(self, f, a):
         """'shared' | 'global' | None for an argument expression"""
         if isinstance(a, (ast.Constant, ast.JoinedStr, ast.Call, ast.List, ast.Dict, ast.Set, ast.Tuple, ast.ListComp, ast.BinOp, ast.Compare, ast.Lambda)):
@@ -1489,9 +1499,11 @@ class MutInventory:
         root, attrs = chain_root(a)
         if not isinstance(root, ast.Name):
             return None
+        kind, info = self.sc.resolve(f, root.id)
+        if kind == 'module':
+            return None
         if any(x in self.shared_attrs for x in attrs):
             return 'shared'
-        kind, info = self.sc.resolve(f, root.id)
         if kind in ('local', 'param') and (f, root.id) in self.shared:
             return 'shared'
         if kind == 'closure' and (info, root.id) in self.shared:
